@@ -132,6 +132,31 @@ func startServer(ctx context.Context, fails *failSink) (string, func(), error) {
 	return ln.Addr().String(), func() { cancel(); _ = ln.Close() }, nil
 }
 
+// sidSet records the session ids the clients of one server process were told by
+// FRESH handshakes: no two of them may be equal (SessionIdAlloc.tla, UniqueIds).
+type sidSet struct {
+	mu   sync.Mutex
+	seen map[string]string
+	n    int
+}
+
+func (s *sidSet) add(sid, who string, fails *failSink) {
+	if sid == "" {
+		return
+	}
+	s.mu.Lock()
+	defer s.mu.Unlock()
+	if s.seen == nil {
+		s.seen = map[string]string{}
+	}
+	s.n++
+	if other, dup := s.seen[sid]; dup {
+		fails.add("duplicate_session_id", fmt.Sprintf("two fresh handshakes (%s and %s) were given the same session id", other, who))
+		return
+	}
+	s.seen[sid] = who
+}
+
 type failSink struct {
 	mu    sync.Mutex
 	fails []FuncFail
@@ -161,20 +186,22 @@ func sharedClientConfig(cache *security.SessionCache) *security.SecurityConfig {
 
 // oneExchange connects with the shared configuration, checks the negotiated
 // outcome and echoes one string.
-func oneExchange(addr string, cfg *security.SecurityConfig, tag string, st *NetStats, fails *failSink) {
+// It returns the session id the client was told and whether the session was resumed
+// (ok = the whole exchange succeeded).
+func oneExchange(addr string, cfg *security.SecurityConfig, tag string, st *NetStats, fails *failSink) (sid string, resumed, ok bool) {
 	ctx, cancel := context.WithTimeout(context.Background(), 20*time.Second)
 	defer cancel()
 	cl, err := client.ConnectAndAuthenticateWithConfig(ctx, &client.ClientConfig{Address: addr, Security: cfg})
 	atomic.AddInt64(&st.Handshakes, 1)
 	if err != nil {
 		fails.add("handshake_error", err.Error())
-		return
+		return "", false, false
 	}
 	defer func() { _ = cl.Close() }()
 	neg := cl.GetSecurityNegotiation()
 	if neg == nil || !neg.Encryption || !cl.GetStream().IsEncrypted() {
 		fails.add("not_encrypted", "handshake succeeded without the required encryption")
-		return
+		return "", false, false
 	}
 	if neg.SessionResumed {
 		atomic.AddInt64(&st.Resumed, 1)
@@ -184,25 +211,26 @@ func oneExchange(addr string, cfg *security.SecurityConfig, tag string, st *NetS
 	out := message.NewMessageForStream(cl.GetStream())
 	if err := out.PutInt(ctx, 0); err != nil {
 		fails.add("echo_error", err.Error())
-		return
+		return "", false, false
 	}
 	if err := out.PutString(ctx, tag); err != nil {
 		fails.add("echo_error", err.Error())
-		return
+		return "", false, false
 	}
 	if err := out.FinishMessage(ctx); err != nil {
 		fails.add("echo_error", err.Error())
-		return
+		return "", false, false
 	}
 	got, err := message.NewMessageFromStream(cl.GetStream()).GetString(ctx)
 	if err != nil {
 		fails.add("echo_error", err.Error())
-		return
+		return "", false, false
 	}
 	if got != tag {
 		fails.add("echo_mismatch", fmt.Sprintf("sent %q got %q", tag, got))
 	}
 	atomic.AddInt64(&st.Messages, 1)
+	return neg.SessionId, neg.SessionResumed, got == tag
 }
 
 // Handshakes: many clients sharing ONE SecurityConfig and ONE cache against one
@@ -240,6 +268,7 @@ func Handshakes(seed int64, clients, iters int, sequential, yield bool, maintena
 		}()
 	}
 	var cw sync.WaitGroup
+	sids := &sidSet{}
 	for c := 0; c < clients; c++ {
 		run := func(c int) {
 			defer cw.Done()
@@ -248,7 +277,10 @@ func Handshakes(seed int64, clients, iters int, sequential, yield bool, maintena
 					// drop the shared session: the next handshakes are fresh again
 					cache.Clear()
 				}
-				oneExchange(addr, cfg, fmt.Sprintf("cli-%d-%d-%d", seed, c, i), &st, fails)
+				who := fmt.Sprintf("cli-%d-%d-%d", seed, c, i)
+				if sid, resumed, ok := oneExchange(addr, cfg, who, &st, fails); ok && !resumed {
+					sids.add(sid, who, fails)
+				}
 				if yield {
 					runtime.Gosched()
 				}
@@ -365,6 +397,12 @@ func Managers(seed int64, clients, iters int, sequential, yield bool) NetStats {
 	}
 	defer func() { _ = ln.Close() }()
 	smServer, smClient := security.NewSecurityManager(), security.NewSecurityManager()
+	// both managers file their sessions in the process-wide cache (the default
+	// configuration names no other): one entry per session id. Every successful
+	// handshake minted its own id, so afterwards the cache must hold at least as
+	// many entries as handshakes succeeded (NoForeignReplace).
+	security.GetSessionCache().Clear()
+	defer security.GetSessionCache().Clear()
 	var encrypted int64
 	go func() {
 		for {
@@ -451,6 +489,9 @@ func Managers(seed int64, clients, iters int, sequential, yield bool) NetStats {
 		}
 	}
 	cw.Wait()
+	if got, want := security.GetSessionCache().Size(), int(atomic.LoadInt64(&st.Fresh)); got < want {
+		fails.add("session_replaced", fmt.Sprintf("%d handshakes succeeded but the shared cache holds %d sessions: %d were replaced by another handshake's", want, got, want-got))
+	}
 	st.Resumed = atomic.LoadInt64(&encrypted) // for this phase: handshakes that ended on an encrypted stream
 	st.Fails = fails.fails
 	return st
@@ -470,6 +511,13 @@ func FreshHandshakes(seed int64, clients, iters int, yield bool) NetStats {
 	}
 	defer stop()
 	var cw sync.WaitGroup
+	sids := &sidSet{}
+	type owned struct {
+		cfg *security.SecurityConfig
+		sid string
+		who string
+	}
+	sessions := make([][]owned, clients)
 	for c := 0; c < clients; c++ {
 		cw.Add(1)
 		go func(c int) {
@@ -477,9 +525,29 @@ func FreshHandshakes(seed int64, clients, iters int, yield bool) NetStats {
 			for i := 0; i < iters; i++ {
 				cfg := sharedClientConfig(security.NewSessionCache())
 				cfg.PeerName = ""
-				oneExchange(addr, cfg, fmt.Sprintf("fresh-%d-%d-%d", seed, c, i), &st, fails)
+				who := fmt.Sprintf("fresh-%d-%d-%d", seed, c, i)
+				sid, resumed, ok := oneExchange(addr, cfg, who, &st, fails)
+				if ok && !resumed {
+					sids.add(sid, who, fails)
+					sessions[c] = append(sessions[c], owned{cfg, sid, who})
+				}
 				if yield {
 					runtime.Gosched()
+				}
+			}
+		}(c)
+	}
+	cw.Wait()
+	// after the storm EVERY client resumes ITS OWN session: the server must find that
+	// handshake's key and identity under the id it handed out (ResumesOwnSession)
+	for c := 0; c < clients; c++ {
+		cw.Add(1)
+		go func(c int) {
+			defer cw.Done()
+			for _, o := range sessions[c] {
+				sid, resumed, ok := oneExchange(addr, o.cfg, o.who+"-again", &st, fails)
+				if ok && (!resumed || sid != o.sid) {
+					fails.add("own_session_not_resumed", fmt.Sprintf("%s: session %s established during the storm could not be resumed afterwards (resumed=%v, now %s)", o.who, o.sid, resumed, sid))
 				}
 			}
 		}(c)
